@@ -1,1 +1,443 @@
+//! Seeded random generators: structured patterns covering every grammar production, inputs biased
+//! to the pattern's own alphabet, replacement strings, token-level mutations, garbage.
+//! Nothing here is trusted: the oracle (TLC) parses the generated text itself.
 
+pub struct Rng(pub u64);
+
+impl Rng {
+    pub fn new(seed: u64) -> Self {
+        Rng(seed.wrapping_mul(0x9E3779B97F4A7C15).wrapping_add(0x1234_5678_9ABC_DEF1))
+    }
+    pub fn next(&mut self) -> u64 {
+        // splitmix64
+        self.0 = self.0.wrapping_add(0x9E3779B97F4A7C15);
+        let mut z = self.0;
+        z = (z ^ (z >> 30)).wrapping_mul(0xBF58476D1CE4E5B9);
+        z = (z ^ (z >> 27)).wrapping_mul(0x94D049BB133111EB);
+        z ^ (z >> 31)
+    }
+    pub fn below(&mut self, n: usize) -> usize {
+        if n == 0 {
+            0
+        } else {
+            (self.next() % n as u64) as usize
+        }
+    }
+    pub fn chance(&mut self, percent: usize) -> bool {
+        self.below(100) < percent
+    }
+    pub fn pick<'a, T>(&mut self, xs: &'a [T]) -> &'a T {
+        &xs[self.below(xs.len())]
+    }
+}
+
+#[derive(Clone)]
+pub struct Profile {
+    pub name: &'static str,
+    pub alphabet: Vec<char>,
+    pub extra_input: Vec<char>,
+    pub classes: bool,
+    pub escapes: bool,
+    pub cats: bool,
+    pub groups: bool,
+    pub brefs: bool,
+    pub anchors: bool,
+    pub lazy: bool,
+    pub counted: bool,
+    pub nullable_loops: bool,
+    pub max_depth: usize,
+    pub flagsets: Vec<&'static str>,
+    pub xsd_percent: usize,
+    pub max_input: usize,
+    pub repls: Vec<&'static str>,
+    pub random_repl: bool,
+}
+
+impl Profile {
+    pub fn by_name(name: &str) -> Profile {
+        let base = Profile {
+            name: "general",
+            alphabet: vec!['a', 'b', 'c'],
+            extra_input: vec!['x'],
+            classes: true,
+            escapes: true,
+            cats: false,
+            groups: true,
+            brefs: true,
+            anchors: true,
+            lazy: true,
+            counted: true,
+            nullable_loops: true,
+            max_depth: 3,
+            flagsets: vec!["", "", "i", "m", "s", "ms", "im", "is", "ims"],
+            xsd_percent: 0,
+            max_input: 8,
+            repls: vec!["[$0]"],
+            random_repl: false,
+        };
+        match name {
+            "general" => base,
+            "spans" => Profile { name: "spans", brefs: false, repls: vec!["[$0]"], ..base },
+            "astral" => Profile {
+                name: "astral",
+                alphabet: vec!['a', '\u{10400}', '\u{301}', 'é'],
+                extra_input: vec!['\u{10428}', 'b'],
+                brefs: false,
+                flagsets: vec!["", "s"],
+                xsd_percent: 30,
+                ..base
+            },
+            "groups" => Profile {
+                name: "groups",
+                repls: vec!["<$1|$2|$3>", "$2$1", "$1$10$11$12|$9"],
+                max_depth: 4,
+                flagsets: vec!["", "", "s"],
+                ..base
+            },
+            "anchors" => Profile {
+                name: "anchors",
+                alphabet: vec!['a', '\n', 'b'],
+                extra_input: vec!['\r', '\n'],
+                classes: false,
+                brefs: false,
+                flagsets: vec!["", "m", "s", "ms"],
+                ..base
+            },
+            "case" => Profile {
+                name: "case",
+                alphabet: vec!['a', 'A', 'b', 'B', '1', 'é', 'É', 'λ', 'Λ', 'б', 'Б', '\u{10428}', '\u{10400}', ' '],
+                extra_input: vec!['\n', '-'],
+                flagsets: vec!["i", "i", "", "is", "im"],
+                cats: true,
+                ..base
+            },
+            "brefs" => Profile { name: "brefs", alphabet: vec!['a', 'b'], flagsets: vec!["", "", "i"], max_depth: 4, ..base },
+            "loops" => Profile {
+                name: "loops",
+                alphabet: vec!['a', 'b'],
+                extra_input: vec!['c', '\n'],
+                classes: false,
+                flagsets: vec!["", "m"],
+                ..base
+            },
+            "repl" => Profile {
+                name: "repl",
+                random_repl: true,
+                repls: vec![],
+                flagsets: vec!["", "", "q"],
+                ..base
+            },
+            "dialect" => Profile { name: "dialect", xsd_percent: 50, flagsets: vec!["", "i", "s", "x"], ..base },
+            "classes" => Profile {
+                name: "classes",
+                alphabet: vec!['a', 'b', 'z', '0', '-', '^', ']', '\u{3b1}', '\u{10400}'],
+                cats: true,
+                brefs: false,
+                anchors: false,
+                max_depth: 2,
+                ..base
+            },
+            _ => base,
+        }
+    }
+}
+
+const META_TOP: &[char] = &['.', '\\', '?', '*', '+', '{', '}', '(', ')', '|', '[', ']', '^', '$'];
+const CATS: &[&str] = &[
+    "L", "Lu", "Ll", "Lt", "Lm", "Lo", "M", "Mn", "Mc", "Me", "N", "Nd", "Nl", "No", "P", "Pc", "Pd", "Ps", "Pe", "Pi",
+    "Pf", "Po", "Z", "Zs", "Zl", "Zp", "S", "Sm", "Sc", "Sk", "So", "C", "Cc", "Cf", "Co", "Cn",
+];
+const BLOCKS: &[&str] = &["BasicLatin", "Greek", "GreekandCoptic", "Latin-1Supplement", "Cyrillic", "Deseret", "PrivateUse"];
+
+pub struct PatGen<'a> {
+    pub rng: &'a mut Rng,
+    pub p: &'a Profile,
+    opened: usize,
+    closed: Vec<usize>,
+    xsd: bool,
+}
+
+impl<'a> PatGen<'a> {
+    pub fn new(rng: &'a mut Rng, p: &'a Profile, xsd: bool) -> Self {
+        PatGen { rng, p, opened: 0, closed: Vec::new(), xsd }
+    }
+
+    fn lit(&mut self) -> char {
+        *self.rng.pick(&self.p.alphabet)
+    }
+
+    fn esc_top(&self, c: char, out: &mut String) {
+        match c {
+            '\n' => out.push_str("\\n"),
+            '\r' => out.push_str("\\r"),
+            '\t' => out.push_str("\\t"),
+            '^' | '$' if self.xsd => out.push(c),
+            c if META_TOP.contains(&c) => {
+                out.push('\\');
+                out.push(c)
+            }
+            c => out.push(c),
+        }
+    }
+
+    fn esc_cls(&self, c: char, out: &mut String) {
+        match c {
+            '\n' => out.push_str("\\n"),
+            '\r' => out.push_str("\\r"),
+            '\t' => out.push_str("\\t"),
+            '\\' | '[' | ']' | '-' | '^' => {
+                out.push('\\');
+                out.push(c)
+            }
+            c => out.push(c),
+        }
+    }
+
+    fn class_escape(&mut self, out: &mut String) {
+        if self.p.cats && self.rng.chance(50) {
+            let neg = self.rng.chance(30);
+            out.push_str(if neg { "\\P{" } else { "\\p{" });
+            if self.rng.chance(75) {
+                out.push_str(*self.rng.pick(CATS));
+            } else {
+                out.push_str("Is");
+                out.push_str(*self.rng.pick(BLOCKS));
+            }
+            out.push('}');
+        } else {
+            out.push('\\');
+            out.push(*self.rng.pick(&['d', 'D', 's', 'S', 'w', 'W', 'i', 'I', 'c', 'C']));
+        }
+    }
+
+    fn class_expr(&mut self, depth: usize, out: &mut String) {
+        out.push('[');
+        if self.rng.chance(30) {
+            out.push('^');
+        }
+        if self.rng.chance(8) {
+            out.push('-'); // literal hyphen first
+        }
+        let n = 1 + self.rng.below(3);
+        for _ in 0..n {
+            match self.rng.below(10) {
+                0..=4 => {
+                    let c = self.lit();
+                    self.esc_cls(c, out);
+                }
+                5..=7 => {
+                    let (mut a, mut b) = (self.lit(), self.lit());
+                    if a > b {
+                        std::mem::swap(&mut a, &mut b);
+                    }
+                    if a == '-' || b == '-' {
+                        self.esc_cls('a', out);
+                    } else {
+                        self.esc_cls(a, out);
+                        out.push('-');
+                        self.esc_cls(b, out);
+                    }
+                }
+                _ => {
+                    if self.p.escapes {
+                        self.class_escape(out)
+                    } else {
+                        let c = self.lit();
+                        self.esc_cls(c, out);
+                    }
+                }
+            }
+        }
+        if depth > 0 && self.rng.chance(20) {
+            out.push('-');
+            self.class_expr(depth - 1, out);
+        } else if self.rng.chance(6) {
+            out.push('-'); // literal hyphen last
+        }
+        out.push(']');
+    }
+
+    fn atom(&mut self, depth: usize, out: &mut String) -> bool {
+        // returns whether the atom can match empty (rough; only used to bias loop bodies)
+        let roll = self.rng.below(100);
+        if roll < 40 || depth == 0 && roll < 70 {
+            let c = self.lit();
+            self.esc_top(c, out);
+            false
+        } else if roll < 48 {
+            out.push('.');
+            false
+        } else if roll < 60 && self.p.classes {
+            self.class_expr(2, out);
+            false
+        } else if roll < 66 && self.p.escapes {
+            self.class_escape(out);
+            false
+        } else if roll < 72 && self.p.anchors && !self.xsd {
+            out.push(if self.rng.chance(50) { '^' } else { '$' });
+            true
+        } else if roll < 78 && self.p.brefs && !self.xsd && !self.closed.is_empty() {
+            let n = *self.rng.pick(&self.closed.clone());
+            out.push('\\');
+            out.push_str(&n.to_string());
+            true
+        } else if depth > 0 && self.p.groups {
+            let capturing = self.xsd || self.rng.chance(60);
+            if capturing {
+                self.opened += 1;
+                let n = self.opened;
+                out.push('(');
+                let e = self.regexp(depth - 1, out);
+                out.push(')');
+                self.closed.push(n);
+                e
+            } else {
+                out.push_str("(?:");
+                let e = self.regexp(depth - 1, out);
+                out.push(')');
+                e
+            }
+        } else {
+            let c = self.lit();
+            self.esc_top(c, out);
+            false
+        }
+    }
+
+    fn piece(&mut self, depth: usize, out: &mut String) -> bool {
+        let mut tmp = String::new();
+        let save = (self.opened, self.closed.clone());
+        let empty = self.atom(depth, &mut tmp);
+        if self.rng.chance(45) {
+            if empty && !self.p.nullable_loops {
+                out.push_str(&tmp);
+                return empty;
+            }
+            let _ = save;
+            out.push_str(&tmp);
+            let q = self.rng.below(if self.p.counted { 9 } else { 3 });
+            let mut min0 = false;
+            match q {
+                0 => {
+                    out.push('?');
+                    min0 = true
+                }
+                1 => {
+                    out.push('*');
+                    min0 = true
+                }
+                2 => out.push('+'),
+                3 => out.push_str("{2}"),
+                4 => out.push_str("{1,2}"),
+                5 => {
+                    out.push_str("{0,2}");
+                    min0 = true
+                }
+                6 => out.push_str("{2,}"),
+                7 => {
+                    out.push_str("{0}");
+                    min0 = true
+                }
+                _ => out.push_str("{1,3}"),
+            }
+            if self.p.lazy && !self.xsd && self.rng.chance(30) {
+                out.push('?');
+            }
+            empty || min0
+        } else {
+            out.push_str(&tmp);
+            empty
+        }
+    }
+
+    fn branch(&mut self, depth: usize, out: &mut String) -> bool {
+        let n = if self.rng.chance(5) { 0 } else { 1 + self.rng.below(3) };
+        let mut empty = true;
+        for _ in 0..n {
+            let e = self.piece(depth, out);
+            empty = empty && e;
+        }
+        empty
+    }
+
+    pub fn regexp(&mut self, depth: usize, out: &mut String) -> bool {
+        let n = if self.rng.chance(30) { 2 + self.rng.below(2) } else { 1 };
+        let mut empty = false;
+        for i in 0..n {
+            if i > 0 {
+                out.push('|');
+            }
+            let e = self.branch(depth, out);
+            empty = empty || e;
+        }
+        empty
+    }
+}
+
+pub fn gen_pattern(rng: &mut Rng, p: &Profile, xsd: bool) -> String {
+    let mut out = String::new();
+    let depth = 1 + rng.below(p.max_depth);
+    let mut g = PatGen::new(rng, p, xsd);
+    g.regexp(depth, &mut out);
+    out
+}
+
+pub fn gen_input(rng: &mut Rng, p: &Profile, pat: &str) -> String {
+    let mut pool: Vec<char> = p.alphabet.clone();
+    pool.extend(p.extra_input.iter());
+    for c in pat.chars() {
+        if c.is_alphanumeric() {
+            pool.push(c);
+        }
+    }
+    let n = rng.below(p.max_input + 1);
+    (0..n).map(|_| *rng.pick(&pool)).collect()
+}
+
+pub fn gen_repl(rng: &mut Rng) -> String {
+    let toks = ["$0", "$1", "$2", "$9", "$10", "$12", "\\$", "\\\\", "x", "1", "0", "$", "\\", "-", "$3"];
+    let n = rng.below(5);
+    let mut s = String::new();
+    for _ in 0..n {
+        s.push_str(*rng.pick(&toks));
+    }
+    s
+}
+
+/// token-level mutation of a pattern: drop / duplicate / swap adjacent / truncate / insert a metacharacter
+pub fn mutate(rng: &mut Rng, pat: &str) -> String {
+    let mut cs: Vec<char> = pat.chars().collect();
+    if cs.is_empty() {
+        return "(".to_string();
+    }
+    let i = rng.below(cs.len());
+    match rng.below(5) {
+        0 => {
+            cs.remove(i);
+        }
+        1 => {
+            let c = cs[i];
+            cs.insert(i, c);
+        }
+        2 => {
+            if i + 1 < cs.len() {
+                cs.swap(i, i + 1);
+            }
+        }
+        3 => cs.truncate(i),
+        _ => {
+            let m = *rng.pick(&['(', ')', '[', ']', '{', '}', '*', '+', '?', '|', '\\', '-', '^', '$', ',', '1']);
+            cs.insert(i, m);
+        }
+    }
+    cs.into_iter().collect()
+}
+
+pub fn garbage(rng: &mut Rng, maxlen: usize) -> String {
+    let pool: Vec<char> = "()[]{}*+?|\\.-^$,:0123456789abpPIsdwLu \n\t".chars().collect();
+    let uni = ['\u{0}', '\u{d7ff}', '\u{e000}', '\u{fffd}', '\u{10000}', '\u{10ffff}', '\u{301}', '\u{212a}', 'é', '\u{c}'];
+    let n = rng.below(maxlen + 1);
+    (0..n)
+        .map(|_| if rng.chance(12) { *rng.pick(&uni) } else { *rng.pick(&pool) })
+        .collect()
+}
